@@ -207,6 +207,8 @@ func main() {
 		panic(err)
 	}
 	var loops []loop
+	type clockUse struct{ pkg, file, fn, call, context string }
+	var clocks []clockUse
 	for _, p := range pkgs {
 		if len(p.Errors) > 0 {
 			fmt.Fprintln(os.Stderr, "package errors:", p.Errors)
@@ -221,6 +223,56 @@ func main() {
 				fd, ok := d.(*ast.FuncDecl)
 				if !ok || fd.Body == nil {
 					continue
+				}
+				// reads of the wall clock, of the environment or of a global random source: the outcome of a message or a
+				// block must not depend on them; the one accepted use is as an argument of a telemetry call
+				if p.Name != "simulation" && !strings.HasSuffix(fname, "simulation.go") {
+					var stack []ast.Node
+					ast.Inspect(fd.Body, func(node ast.Node) bool {
+						if node == nil {
+							stack = stack[:len(stack)-1]
+							return true
+						}
+						stack = append(stack, node)
+						call, ok := node.(*ast.CallExpr)
+						if !ok {
+							return true
+						}
+						sel, ok := call.Fun.(*ast.SelectorExpr)
+						if !ok {
+							return true
+						}
+						pk, ok := sel.X.(*ast.Ident)
+						if !ok {
+							return true
+						}
+						pn, ok := p.TypesInfo.Uses[pk].(*types.PkgName)
+						if !ok {
+							return true
+						}
+						path, name := pn.Imported().Path(), sel.Sel.Name
+						bad := (path == "time" && (name == "Now" || name == "Since" || name == "Until")) ||
+							(path == "os" && (name == "Getenv" || name == "LookupEnv" || name == "Hostname" || name == "Getpid")) ||
+							(path == "math/rand" || path == "math/rand/v2" || path == "crypto/rand")
+						if !bad {
+							return true
+						}
+						ctx := "other"
+						for i := len(stack) - 2; i >= 0; i-- {
+							if outer, ok := stack[i].(*ast.CallExpr); ok {
+								if osel, ok := outer.Fun.(*ast.SelectorExpr); ok {
+									if opk, ok := osel.X.(*ast.Ident); ok {
+										if opn, ok := p.TypesInfo.Uses[opk].(*types.PkgName); ok && strings.HasSuffix(opn.Imported().Path(), "/telemetry") {
+											ctx = "telemetry"
+										}
+									}
+								}
+								break
+							}
+						}
+						clocks = append(clocks, clockUse{p.Name, fname[strings.LastIndex(fname, "/")+1:], fd.Name.Name, path + "." + name, ctx})
+						return true
+					})
 				}
 				n := 0
 				ast.Inspect(fd.Body, func(node ast.Node) bool {
@@ -309,8 +361,22 @@ func main() {
 		fmt.Fprintf(&sb, "  (%q, %q, %q, %d, %q, [%s], [%s], [%s])%s\n", l.pkg, l.file, l.fn, l.idx, l.expr, qs(shapes), qs(l.reasons), qs(l.impure), sep)
 	}
 	sb.WriteString("].\n")
+	sort.Slice(clocks, func(i, j int) bool {
+		a, b := clocks[i], clocks[j]
+		return a.pkg+a.file+a.fn+a.call < b.pkg+b.file+b.fn+b.call
+	})
+	sb.WriteString("(* reads of the wall clock, the environment or a random source outside the simulation code:\n   package, file, function, what is called, where the value goes *)\n")
+	sb.WriteString("Definition clock_uses : list (string * string * string * string * string) := [\n")
+	for i, c := range clocks {
+		sep := ";"
+		if i == len(clocks)-1 {
+			sep = ""
+		}
+		fmt.Fprintf(&sb, "  (%q, %q, %q, %q, %q)%s\n", c.pkg, c.file, c.fn, c.call, c.context, sep)
+	}
+	sb.WriteString("].\n")
 	if err := os.WriteFile(out, []byte(sb.String()), 0o644); err != nil {
 		panic(err)
 	}
-	fmt.Printf("%d map-range loops, %d not of a safe shape\n", len(loops), unsafe)
+	fmt.Printf("%d map-range loops, %d not of a safe shape; %d reads of clock/environment/randomness\n", len(loops), unsafe, len(clocks))
 }
